@@ -65,7 +65,9 @@ Definition count_cmd (r : rule) : cmd est :=
 (* postCheck: nElected == nSeats or (nElected < nSeats and nElected == nEligible) *)
 Definition post_check (s : est) : bool :=
   let ne := nlen (electeds A s) in
-  (ne =? cf_nseats cfg) || ((ne <? cf_nseats cfg) && (ne =? nlen (eligibles A s))).
+  let no_und := String.eqb (cf_rule cfg) "mpls" in      (* Rule.excludesUndeclared *)
+  let electable := filter (fun c => negb (no_und && cundecl c)) (eligibles A s) in
+  (ne =? cf_nseats cfg) || ((ne <? cf_nseats cfg) && (ne =? nlen electable)).
 
 Definition run_count (fuel : positive) (r : rule) (pr : profile) : outcome A :=
   match exec (@crashed A) fuel (count_cmd r) (init_state pr) with
